@@ -152,6 +152,8 @@ pub struct StateStore {
     checkpoints: Arc<RwLock<Vec<CheckpointMetadata>>>,
     /// Last checkpoint time
     last_checkpoint: Arc<RwLock<u64>>,
+    /// Number of checkpoint ids handed out by this store (suffix that keeps ids unique)
+    checkpoint_seq: u64,
     /// Redis connection (if using Redis backend)
     #[cfg(feature = "streaming-redis")]
     redis_client: Option<Arc<RwLock<Client>>>,
@@ -183,6 +185,7 @@ impl StateStore {
             state: Arc::new(RwLock::new(HashMap::new())),
             checkpoints: Arc::new(RwLock::new(Vec::new())),
             last_checkpoint: Arc::new(RwLock::new(0)),
+            checkpoint_seq: 0,
             #[cfg(feature = "streaming-redis")]
             redis_client,
         }
@@ -481,12 +484,18 @@ impl StateStore {
 
     /// Create a checkpoint of current state
     pub fn checkpoint(&mut self, name: impl Into<String>) -> StateResult<String> {
+        // The wall-clock millisecond alone is not unique: two checkpoints taken within the same
+        // millisecond would share one directory. A per-store sequence suffix keeps ids distinct
+        // (zero-padded so that ids still sort chronologically).
+        let checkpoint_seq = self.checkpoint_seq;
+        self.checkpoint_seq += 1;
         let checkpoint_id = format!(
-            "checkpoint_{}",
+            "checkpoint_{}_{:06}",
             SystemTime::now()
                 .duration_since(UNIX_EPOCH)
                 .unwrap()
-                .as_millis()
+                .as_millis(),
+            checkpoint_seq
         );
 
         let state = self.state.read().unwrap();
